@@ -39,6 +39,8 @@ type recEvent struct {
 	Conn        int
 	NodePrevAt  *bitcoin.Hash32 // for headers: node's hash at Height-1 at callback time
 	ChainHeight int             // node height at callback time
+	At          time.Time       // wall clock at callback time
+	Shift       time.Duration   // logical time added through the hook so far
 }
 
 type recHandler struct {
@@ -51,9 +53,11 @@ type recHandler struct {
 func (h *recHandler) add(ev recEvent) {
 	h.mu.Lock()
 	defer h.mu.Unlock()
+	ev.At = time.Now()
 	if h.sn != nil {
 		ev.Step = h.sn.step
 		ev.Conn = h.sn.peer.conn
+		ev.Shift = h.sn.shift
 	}
 	h.events = append(h.events, ev)
 	if h.after != nil {
@@ -325,6 +329,7 @@ type stepNode struct {
 	reconnects      int
 	progress        int // bumps whenever something observable happened (for quiescence)
 	chainFrom       int // lowest height tracked by nodeChain (boundary profiles track only the tail)
+	shift           time.Duration // total logical time added through the hook
 }
 
 func newStepNode(cfg config.Config, store *verifkit.MemStore, peer *fakePeer, fetch *stubFetcher) *stepNode {
@@ -502,6 +507,7 @@ func (sn *stepNode) txStep() bool {
 
 // passTime advances the node's clock by d (shifts every stored stamp back).
 func (sn *stepNode) passTime(d time.Duration) {
+	sn.shift += d
 	sn.node.state.VerifShiftTime(d)
 	sn.node.memPool.VerifShiftTime(d)
 	sn.node.txs.VerifShiftTime(d)
